@@ -3,7 +3,7 @@ from __future__ import annotations
 
 import ast
 import re
-from typing import Optional
+from typing import Any, Optional
 
 from .. import rx
 from ..model import AnalysisError, ClassInfo, Const, FuncInfo, Program, dotted, norm, walk_no_nested
@@ -195,51 +195,83 @@ def rule_spacing_re(ctx: RuleContext, p: Program, rid: str) -> None:
 
 
 def rule_op_table(ctx: RuleContext, p: Program, rid: str) -> None:
-    ctx.rule(rid, 'the value getters of NumberAddExpr / NumberMulExpr / NumberUnaryExpr handle exactly the literal alternatives '
-                  'of ADD_OP / MUL_OP / UNARY_OP, each with the matching Python operator, and anything else is unreachable')
+    """finite-domain evaluation of the value getters of the expression nodes with exact rational stand-ins for decimals"""
+    import fractions
+    import itertools
+    from . import possem
+    from .tokenstore import TS
+    ctx.rule(rid, 'the value getters of NumberAddExpr / NumberMulExpr / NumberUnaryExpr, interpreted with exact rational stand-ins for the '
+                  'operand values over every sequence of up to 3 operators drawn from the literal alternatives of ADD_OP / MUL_OP / UNARY_OP in '
+                  'the grammar: the result is the left-to-right evaluation with the matching arithmetic operator (+ - * / and unary + -), every '
+                  'alternative of the terminal is handled, and an operator text outside the terminal cannot slip through silently')
     g = grammar(p)
-    want = {'NumberAddExpr': ('ADD_OP', {'+': 'Add', '-': 'Sub'}), 'NumberMulExpr': ('MUL_OP', {'*': 'Mult', '/': 'Div'})}
-    for cname, (term, table) in want.items():
+    ts = TS(p)
+    F = fractions.Fraction
+
+    class Interp(possem.PosInterp):
+        tag = 'OP-TABLE'
+
+        def truth(self, v: Any, node: Any) -> bool:               # type: ignore[override]
+            if isinstance(v, possem.Obj):
+                return True
+            return super().truth(v, node)
+
+    ref = {'+': lambda a, b: a + b, '-': lambda a, b: a - b, '*': lambda a, b: a * b, '/': lambda a, b: a / b}
+    primes = [F(7), F(3), F(2), F(5)]
+    for cname, term in (('NumberAddExpr', 'ADD_OP'), ('NumberMulExpr', 'MUL_OP')):
         c = p.cls(cname)
         f = p.method(c, 'value', inherited=False)
         alts = g.literal_alternatives(term)
-        got: dict[str, str] = {}
-        tail_ok = False
-        for node in walk_no_nested(f.node):
-            if isinstance(node, ast.If):
-                cur: Optional[ast.stmt] = node
-                while isinstance(cur, ast.If):
-                    t = cur.test
-                    if isinstance(t, ast.Compare) and isinstance(t.ops[0], ast.Eq) and isinstance(t.comparators[0], ast.Constant) \
-                            and norm(t.left).endswith('.raw_text'):
-                        body = cur.body[0] if cur.body else None
-                        if isinstance(body, ast.AugAssign):
-                            got[t.comparators[0].value] = type(body.op).__name__
-                    nxt = cur.orelse
-                    if len(nxt) == 1 and isinstance(nxt[0], ast.If):
-                        cur = nxt[0]
-                    else:
-                        tail_ok = len(nxt) == 1 and isinstance(nxt[0], ast.Assert) and norm(nxt[0].test) == 'False' or \
-                            (len(nxt) == 1 and isinstance(nxt[0], ast.Raise))
-                        cur = None
-                break
-        ok = alts is not None and sorted(got) == alts and got == table and tail_ok
-        ctx.check(ok, rid, f'{c.module.name.split(".", 1)[1]}:{cname}.value', f'{got} vs {term}={alts}',
-                  f'{cname}.value maps {got} (fallthrough guarded: {tail_ok}); grammar {term} = {alts}, required {table}', f.where,
-                  note=f'{got}')
+        if not alts:
+            raise AnalysisError(f'OP-TABLE: {term} is not a set of literals')
+        problem = ''
+        n = 0
+        for k in range(0, 4):
+            for ops in itertools.product(alts, repeat=k):
+                operands = [possem.Obj('Operand', {'value': primes[i]}, f'operand{i}') for i in range(k + 1)]
+                opobjs = [possem.Obj('Op', {'raw_text': o}, o) for o in ops]
+                me = possem.Obj(cname, {'_raw_operands': tuple(operands), '_raw_ops': tuple(opobjs), 'raw_operands': tuple(operands), 'raw_ops': tuple(opobjs)}, 'expr')
+                n += 1
+                want = primes[0]
+                for o, x in zip(ops, primes[1:]):
+                    want = ref[o](want, x)
+                try:
+                    got = Interp(ts, [], module=c.module).call_function(f, [me], {})
+                except possem.Raised as ex:
+                    problem = problem or f'operators {list(ops)}: raises {ex}'
+                    continue
+                if got != want:
+                    problem = problem or f'operands 7, 3, 2, 5 with operators {list(ops)}: evaluates to {got}, arithmetic gives {want}'
+        # an operator text outside the terminal must not be treated as one of them
+        me = possem.Obj(cname, {'_raw_operands': (possem.Obj('Operand', {'value': F(7)}, 'a'), possem.Obj('Operand', {'value': F(3)}, 'b')),
+                                '_raw_ops': (possem.Obj('Op', {'raw_text': '%'}, '%'),)}, 'expr')
+        me.f['raw_operands'], me.f['raw_ops'] = me.f['_raw_operands'], me.f['_raw_ops']
+        try:
+            got = Interp(ts, [], module=c.module).call_function(f, [me], {})
+            problem = problem or f'an operator text outside {term} (\'%\') is evaluated to {got} instead of being refused'
+        except possem.Raised:
+            pass
+        ctx.check(not problem, rid, f'{c.module.name.split(".", 1)[1]}:{cname}.value', f'{term}={alts}', f'{cname}.value: {problem}', f.where,
+                  note=f'{n} operator sequences over {alts}')
     c = p.cls('NumberUnaryExpr', 'models.number_unary_expr')
     f = p.method(c, 'value', inherited=False)
     alts = g.literal_alternatives('UNARY_OP')
-    got = {}
-    for node in walk_no_nested(f.node):
-        if isinstance(node, ast.If) and isinstance(node.test, ast.Compare) and isinstance(node.test.comparators[0], ast.Constant):
-            r = node.body[0]
-            if isinstance(r, ast.Return):
-                got[node.test.comparators[0].value] = 'neg' if isinstance(r.value, ast.UnaryOp) and isinstance(r.value.op, ast.USub) else \
-                    'same' if isinstance(r.value, ast.Attribute) else '?'
-    ok = alts is not None and sorted(got) == alts and got == {'+': 'same', '-': 'neg'}
-    ctx.check(ok, rid, 'models.number_unary_expr:NumberUnaryExpr.value', f'{got} vs UNARY_OP={alts}',
-              f'NumberUnaryExpr.value maps {got}; grammar UNARY_OP = {alts}', f.where, note=f'{got}')
+    if not alts:
+        raise AnalysisError('OP-TABLE: UNARY_OP is not a set of literals')
+    problem = ''
+    for o in alts:
+        me = possem.Obj('NumberUnaryExpr', {'_unary_op': possem.Obj('Op', {'raw_text': o}, o), '_operand': possem.Obj('Operand', {'value': F(7)}, 'operand')}, 'unary')
+        me.f['raw_unary_op'], me.f['raw_operand'] = me.f['_unary_op'], me.f['_operand']
+        try:
+            got = Interp(ts, [], module=c.module).call_function(f, [me], {})
+        except possem.Raised as ex:
+            problem = problem or f'operator {o!r}: raises {ex}'
+            continue
+        want = F(7) if o == '+' else -F(7)
+        if got != want:
+            problem = problem or f'unary {o!r} of 7 evaluates to {got}'
+    ctx.check(not problem, rid, 'models.number_unary_expr:NumberUnaryExpr.value', f'UNARY_OP={alts}', f'NumberUnaryExpr.value: {problem}', f.where,
+              note=f'{alts}')
 
 
 # ------------------------------------------------------------------ GRAM-FIELDS
